@@ -466,6 +466,12 @@ func init() {
 			if impl == "panic" {
 				fs = append(fs, Finding{Kind: "violation", Region: "tx.recover.panic", Detail: "recovery panicked"})
 			}
+			if im, isok := impl.(map[string]any); isok && str(req, "op") == "tx.recover" && !same(impl, orc["model"]) && c.Ask != nil {
+				// the implementation returned something the model does not: ask for the property's verdict on it
+				if v := c.Ask(map[string]any{"op": "tx.judge", "hex": req["hex"], "cid": req["cid"], "result": im["ok"]}); v != nil && v["sound"] != true {
+					fs = append(fs, Finding{Kind: "violation", Region: "tx.recover.unsound", Detail: "address returned but the signature (V,R,S) of the input does not recover to it over keccak(payload), or payload is not the spec preimage of the returned fields / chain id"})
+				}
+			}
 			if _, isok := impl.(map[string]any); isok && str(req, "op") == "tx.recover" && same(impl, orc["model"]) {
 				if orc["sound"] != true {
 					fs = append(fs, Finding{Kind: "violation", Region: "tx.recover.unsound", Detail: "address returned but (R,S) of the input does not verify over keccak(payload) for it, or payload is not the spec preimage of the returned fields / chain id"})
